@@ -198,6 +198,57 @@ MUTANTS = [
     ("walk-dedup-dropped", "C16", "src/cli/main.rs",
      "                    if seen_files.contains(&path) {\n                        continue;\n                    }\n", "",
      "dedup-not-enforced"),
+    # ---- C18 (diff producers) ------------------------------------------------------------------------------------
+    ("diff-json-insert-first-only", "C18", "src/cli/output_diff.rs",
+     """                    let expected = text_diff
+                        .iter_changes(&op)
+                        .map(|change| change.value())
+                        .collect();
+
+                    mismatches.push(DiffMismatch {
+                        original_start_line: old_index,
+                        original_end_line: old_index,""",
+     """                    let expected = text_diff
+                        .iter_changes(&op)
+                        .next()
+                        .expect("no actual change present in diff/insert")
+                        .to_string();
+
+                    mismatches.push(DiffMismatch {
+                        original_start_line: old_index,
+                        original_end_line: old_index,""", "mismatch-text arm=Insert field=expected form=first"),
+    ("diff-json-end-off-by-one", "C18", "src/cli/output_diff.rs",
+     "                        expected_end_line: new_index + new_len - 1,\n                        original,\n                        expected,\n",
+     "                        expected_end_line: new_index + new_len,\n                        original,\n                        expected,\n",
+     "mismatch-line-number arm=Replace field=expected_end_line"),
+    ("diff-json-start-swapped", "C18", "src/cli/output_diff.rs",
+     "                        original_start_line: old_index,\n                        original_end_line: old_index + old_len - 1,\n                        expected_start_line: new_index,\n                        expected_end_line: new_index,",
+     "                        original_start_line: new_index,\n                        original_end_line: old_index + old_len - 1,\n                        expected_start_line: new_index,\n                        expected_end_line: new_index,",
+     "mismatch-line-number arm=Delete field=original_start_line"),
+    ("diff-json-replace-tags-swapped", "C18", "src/cli/output_diff.rs",
+     """                        .filter(|change| matches!(change.tag(), ChangeTag::Delete))""",
+     """                        .filter(|change| !matches!(change.tag(), ChangeTag::Insert))""",
+     None),
+    ("diff-json-from-lines-swapped", "C18", "src/cli/output_diff.rs",
+     "pub fn output_diff_json(old: &str, new: &str) -> Option<Vec<DiffMismatch>> {\n    let text_diff = TextDiff::from_lines(old, new);",
+     "pub fn output_diff_json(old: &str, new: &str) -> Option<Vec<DiffMismatch>> {\n    let text_diff = TextDiff::from_lines(new, old);",
+     "textdiff-not-from_lines(old,new)"),
+    ("diff-unified-no-newline-hint", "C18", "src/cli/output_diff.rs",
+     """        text_diff.unified_diff().header("old", "new")""",
+     """        text_diff.unified_diff().missing_newline_hint(false).header("old", "new")""",
+     "unified-diff-option missing_newline_hint"),
+    ("diff-unified-any-equal", "C18", "src/cli/output_diff.rs",
+     "        .all(|op| matches!(op, DiffOp::Equal { .. }))", "        .any(|op| matches!(op, DiffOp::Equal { .. }))",
+     "no-difference-test-not-exact"),
+    ("diff-summary-no-newline", "C18", "src/cli/main.rs",
+     'Ok(Some(format!("{file_name}\\n").into_bytes()))', 'Ok(Some(file_name.to_string().into_bytes()))', "summary-line-not-file-name"),
+    ("diff-create-json-swapped", "C18", "src/cli/main.rs",
+     "output_diff::output_diff_json(original, expected)", "output_diff::output_diff_json(expected, original)",
+     "producer-arguments-swapped output_diff_json"),
+    ("diff-json-early-break", "C18", "src/cli/output_diff.rs",
+     "                DiffOp::Equal { .. } => (), // Don't record an equals diff, its unnecessary",
+     "                DiffOp::Equal { .. } => break, // nothing after an equal run in a group",
+     None),
     ("loopexit-metadata", "C14", "src/cli/main.rs",
      "                    if path.is_file() {", "                    if fs::metadata(&path)?.is_file() {", "walk-loop-aborts-on"),
     ("errstatus-revert", "C13", "src/cli/main.rs",
